@@ -130,15 +130,15 @@ def mutants(prog):
                 count += 1
                 yield (f"inplace twin in {modname.split('.')[-1]}.{name}", ov, "E1.pure")
     specs = [
-        ("grid deepcopy shares tensors", "deepali.core.grid", "Grid.clone", "grid._size = self._size.clone()", "grid._size = self._size", "T15.deepcopy"),
+        ("grid deepcopy shares tensors", "deepali.core.grid", "Grid.clone", "setattr(grid, name, value.clone())", "setattr(grid, name, value)", "T15.deepcopy"),
         ("batch deepcopy shares grids", "deepali.data.image", "ImageBatch.__deepcopy__", "grid=tuple((grid.clone() for grid in self._grid)), ", "", "T15.deepcopy"),
         ("image deepcopy shares data", "deepali.data.image", "Image.__deepcopy__", "self.data.clone(memory_format=torch.preserve_format)", "self.data", "T15.deepcopy"),
         ("grid center mutates", "deepali.core.grid", "Grid.center", "shallow_copy(self).center_(arg, *args)", "self.center_(arg, *args)", "E1.accessor"),
-        ("setter mutates stored tensor", "deepali.core.grid", "Grid.center_", "self._center = cat_scalars(", "self._center.copy_(cat_scalars(", "E1.accessor"),
+        ("setter mutates stored tensor", "deepali.core.grid", "Grid.spacing_", "self._spacing = spacing", "self._spacing.copy_(spacing)", "E1.accessor"),
         ("float() alias then inplace", "deepali.core.flow", "normalize_flow", "data.mul(", "data.float().mul_(", "E1.pure"),
         ("image accessor mutates", "deepali.data.image", "ImageBatch.normalize", "U.normalize_image(self, ", "U.normalize_image(self, inplace=True, ", "E1.accessor"),
+        ("svf inverse: buffer registered on the original", "deepali.spatial.nonrigid", "StationaryVelocityFieldTransform.inverse", "inv.register_buffer('u', u, persistent=False)", "self.register_buffer('u', u, persistent=False)", "T15.transform-accessor"),
     ]
     for name, mod, fn, old, new, expect in specs:
         ov = source_sub(prog, mod, fn, old, new)
-        if ov is not None:
-            yield (name, ov, expect)
+        yield (name if ov is not None else name + " [spec does not apply]", ov, expect)
